@@ -47,7 +47,12 @@ def _replay(beh):
                     continue
                 if got.dtype != dtype:
                     fails.append((label, "dtype %s != operator dtype %s" % (got.dtype, dtype)))
-                err = float((got.to(torch.float64) - ref).abs().max()) / max(1e-30, float(ref.abs().max()))
+                # relative to the size of the exact answer; for the left-factor form L A^-1 B relative to |L| |A^-1 B| (the exact product may
+                # cancel to zero - then rounding of the order eps |L| |X| is all that can be asked for)
+                denom = float(ref.abs().max())
+                if "left factor" in label:
+                    denom = max(denom, float((B["lhs"].to(torch.float64).abs() @ X["mat"].abs()).max()))
+                err = float((got.to(torch.float64) - ref).abs().max()) / max(1e-30, denom)
                 if beh.get("big") and path.startswith("cg"):
                     # large systems on the CG path (more unknowns than the 10 mandatory iterations): the property's criterion is the
                     # residual against the configured tolerance; the left-factor form has no residual of its own and is only executed
